@@ -794,3 +794,318 @@ Example own_tmp_interleavings_safe :
                     | _ => false
                     end) (interleavings tA tB) = true.
 Proof. cbn zeta. split; vm_compute; reflexivity. Qed.
+
+(** ** Two overlapping saves, each through a temporary file of its own: every
+    interleaving is accepted and publishes complete versions only. *)
+
+(** [t] is an interleaving of [a] and [b]. *)
+Inductive merge : list op -> list op -> list op -> Prop :=
+  | merge_nil : merge [] [] []
+  | merge_l x a b t : merge a b t -> merge (x :: a) b (x :: t)
+  | merge_r y a b t : merge a b t -> merge a (y :: b) (y :: t).
+
+Lemma merge_nil_l b : merge [] b b.
+Proof. induction b; constructor; auto. Qed.
+
+Lemma merge_nil_r a : merge a [] a.
+Proof. induction a; constructor; auto. Qed.
+
+Lemma interleavings_merge a : forall b t, In t (interleavings a b) -> merge a b t.
+Proof.
+  induction a as [|x a IHa]; intros b t Hin.
+  - destruct b; cbn in Hin; destruct Hin as [<-|[]]; apply merge_nil_l.
+  - induction b as [|y b IHb] in t, Hin |- *.
+    + cbn in Hin. destruct Hin as [<-|[]]. apply merge_nil_r.
+    + cbn [interleavings] in Hin. apply in_app_or in Hin. destruct Hin as [Hin|Hin];
+        apply in_map_iff in Hin; destruct Hin as (t' & <- & Hin).
+      * constructor. apply IHa, Hin.
+      * constructor. apply IHb, Hin.
+Qed.
+
+Section TwoSaves.
+Variable dst : path.
+
+(** Where one save (descriptor [fd], temporary name [tmp], complete content
+    [c]) stands when [rem] is what it still has to do. *)
+Inductive st (fd : N) (tmp : path) (c : data) (s : fs) : list op -> Prop :=
+  | st_pre chunks :
+      concat chunks = c -> aget (dir_cur s) tmp = None ->
+      st fd tmp c s (atomic_shape fd tmp dst chunks)
+  | st_fill n acc rest :
+      aget (fds s) fd = Some {| fd_ino := n; fd_off := nlen acc; fd_wr := true; fd_app := false |} ->
+      f_cur_spec (file_of s n) = acc -> ever_at s dst n = false ->
+      aget (dir_cur s) tmp = Some n -> n < next_ino s -> acc ++ concat rest = c ->
+      st fd tmp c s (map (Write fd) rest ++ [Fsync fd; Close fd; Rename tmp dst])
+  | st_synced n :
+      f_pend (file_of s n) = [] -> f_cur (file_of s n) = c -> ever_at s dst n = false ->
+      aget (dir_cur s) tmp = Some n -> n < next_ino s ->
+      st fd tmp c s [Close fd; Rename tmp dst]
+  | st_closed n :
+      f_pend (file_of s n) = [] -> f_cur (file_of s n) = c -> ever_at s dst n = false ->
+      aget (dir_cur s) tmp = Some n -> n < next_ino s ->
+      st fd tmp c s [Rename tmp dst]
+  | st_done : aget (dir_cur s) tmp = None -> st fd tmp c s [].
+
+(** Inode numbers from [next_ino] on are unused. *)
+Definition unused_above (s : fs) : Prop :=
+  forall i, next_ino s <= i -> ever_at s dst i = false /\ aget (files s) i = None.
+
+Lemma ever_at_set_dir s nd i :
+  ever_at (set_dir s nd) dst i =
+  (match aget nd dst with Some j => j =? i | None => false end) || ever_at s dst i.
+Proof. reflexivity. Qed.
+
+Lemma ever_at_cur_absorb s i :
+  (match aget (dir_cur s) dst with Some j => j =? i | None => false end) || ever_at s dst i = ever_at s dst i.
+Proof.
+  unfold ever_at, all_dirs. cbn [existsb].
+  destruct (match aget (dir_cur s) dst with Some j => j =? i | None => false end); reflexivity.
+Qed.
+
+(** What a state predicate of one save depends on. *)
+Lemma st_frame fd tmp c s s' rem :
+  st fd tmp c s rem ->
+  aget (fds s') fd = aget (fds s) fd ->
+  aget (dir_cur s') tmp = aget (dir_cur s) tmp ->
+  (forall n, aget (dir_cur s) tmp = Some n ->
+             file_of s' n = file_of s n /\ ever_at s' dst n = ever_at s dst n) ->
+  next_ino s <= next_ino s' ->
+  st fd tmp c s' rem.
+Proof.
+  intros H Hfd Hd Hf Hn. destruct H.
+  - apply st_pre; [assumption|congruence].
+  - destruct (Hf n) as [Hf1 Hf2]; [assumption|].
+    apply (st_fill _ _ _ _ n acc rest); try congruence. lia.
+  - destruct (Hf n) as [Hf1 Hf2]; [assumption|]. apply (st_synced _ _ _ _ n); try congruence. lia.
+  - destruct (Hf n) as [Hf1 Hf2]; [assumption|]. apply (st_closed _ _ _ _ n); try congruence. lia.
+  - apply st_done. congruence.
+Qed.
+
+(** One step of a save on its own. *)
+Lemma st_step fd tmp c s o rem :
+  tmp <> dst -> unused_above s -> st fd tmp c s (o :: rem) ->
+  step_ok dst s o = true /\ st fd tmp c (step s o) rem /\ unused_above (step s o) /\
+  published s o dst = match rem with [] => [Some c] | _ => [] end.
+Proof.
+  intros Hne Hu H. apply N.eqb_neq in Hne.
+  inversion H as [chunks Hc Habs|n acc rest Hfd Hcur Hev Hdir Hlt Hc|n Hp Hcur Hev Hdir Hlt|n Hp Hcur Hev Hdir Hlt|]; try subst o; try subst rem; try subst remA.
+  - (* open *)
+    cbn [step_ok step published]. rewrite Habs. cbn [fl_tmp o_creat o_wr o_app]. rewrite Hne. cbn [andb negb].
+    destruct (Hu (next_ino s)) as [Hev Hfile]; [lia|].
+    split; [reflexivity|]. split; [|split; [|destruct (map (Write fd) chunks); reflexivity]].
+    + apply (st_fill _ _ _ _ (next_ino s) [] chunks).
+      * cbn [fds set_fd]. rewrite aget_aset, N.eqb_refl. reflexivity.
+      * unfold f_cur_spec, file_of. cbn [files set_fd set_dir]. rewrite Hfile. reflexivity.
+      * change (ever_at (set_dir s (aset (dir_cur s) tmp (next_ino s))) dst (next_ino s) = false).
+        rewrite ever_at_set_dir, aget_aset, (N.eqb_sym dst tmp), Hne, ever_at_cur_absorb. exact Hev.
+      * cbn [dir_cur set_fd set_dir]. rewrite aget_aset, N.eqb_refl. reflexivity.
+      * cbn [next_ino set_fd]. lia.
+      * exact Hc.
+    + intros i Hi. cbn [next_ino set_fd] in Hi. destruct (Hu i) as [H1 H2]; [lia|]. split; [|exact H2].
+      change (ever_at (set_dir s (aset (dir_cur s) tmp (next_ino s))) dst i = false).
+      rewrite ever_at_set_dir, aget_aset, (N.eqb_sym dst tmp), Hne, ever_at_cur_absorb. exact H1.
+  - match goal with Heq : _ ++ _ = _ :: _ |- _ =>
+      destruct rest as [|d rest]; cbn [map app] in Heq; injection Heq as <- <- end.
+    + (* fsync *)
+      cbn [step_ok step published]. rewrite Hfd. cbn [fd_ino].
+      split; [reflexivity|]. split; [|split; [|reflexivity]].
+      * cbn [concat] in Hc. rewrite app_nil_r in Hc.
+        apply (st_synced _ _ _ _ n).
+        -- rewrite file_of_set_file, N.eqb_refl. reflexivity.
+        -- rewrite file_of_set_file, N.eqb_refl. unfold f_cur at 1. cbn [f_pend f_dur].
+           rewrite f_cur_spec_eq, Hcur. exact Hc.
+        -- exact Hev.
+        -- exact Hdir.
+        -- exact Hlt.
+      * intros i Hi. destruct (Hu i Hi) as [H1 H2]. split; [exact H1|].
+        cbn [files set_file]. rewrite aget_aset. destruct (N.eqb_spec i n); [subst; cbn in Hi; lia|exact H2].
+    + (* write *)
+      cbn [step_ok step published]. unfold fd_target_ok. rewrite Hfd. cbn [fd_ino fd_wr fd_app fd_off]. rewrite Hev.
+      split; [reflexivity|]. split; [|split; [|destruct (map (Write fd) rest); reflexivity]].
+      * apply (st_fill _ _ _ _ n (acc ++ d) rest).
+        -- cbn [fds set_fd]. rewrite aget_aset, N.eqb_refl, nlen_app. reflexivity.
+        -- change (file_of (set_fd ?a ?b ?c) n) with (file_of a n).
+           rewrite file_of_add_pend, N.eqb_refl. unfold f_cur_spec in *. cbn [f_pend f_dur fold_right].
+           rewrite Hcur. cbn [apply_pop]. apply write_at_end.
+        -- exact Hev.
+        -- exact Hdir.
+        -- exact Hlt.
+        -- cbn [concat] in Hc. rewrite <- app_assoc. exact Hc.
+      * intros i Hi. destruct (Hu i Hi) as [H1 H2]. split; [exact H1|].
+        cbn [files set_fd add_pend set_file]. rewrite aget_aset.
+        destruct (N.eqb_spec i n); [subst; cbn in Hi; lia|exact H2].
+  - (* close *)
+    cbn [step_ok step published].
+    split; [reflexivity|]. split; [|split; [|reflexivity]].
+    + apply (st_closed _ _ _ _ n); assumption.
+    + exact Hu.
+  - (* rename *)
+    cbn [step_ok step published]. rewrite Hdir, N.eqb_refl, Hne.
+    unfold synced. rewrite Hp. cbn [negb andb].
+    split; [reflexivity|]. split.
+    { apply st_done. cbn [dir_cur set_dir]. rewrite aget_aset, Hne, aget_adel, N.eqb_refl. reflexivity. }
+    split.
+    + intros i Hi. cbn [next_ino set_dir] in Hi. destruct (Hu i Hi) as [H1 H2]. split; [|exact H2].
+      rewrite ever_at_set_dir, aget_aset, N.eqb_refl, H1, orb_false_r.
+      apply N.eqb_neq. lia.
+    + unfold live_view, view. rewrite Hdir, Hcur. reflexivity.
+Qed.
+
+(** One step of save A seen from save B. *)
+Lemma st_other fdA tmpA cA fdB tmpB cB s o remA remB :
+  fdA <> fdB -> tmpA <> tmpB -> tmpA <> dst -> tmpB <> dst ->
+  (forall nA nB, aget (dir_cur s) tmpA = Some nA -> aget (dir_cur s) tmpB = Some nB -> nA <> nB) ->
+  st fdA tmpA cA s (o :: remA) -> st fdB tmpB cB s remB ->
+  st fdB tmpB cB (step s o) remB /\
+  (forall nA nB, aget (dir_cur (step s o)) tmpA = Some nA -> aget (dir_cur (step s o)) tmpB = Some nB -> nA <> nB).
+Proof.
+  intros Hfd Htmp HA HB Hinj H HBst.
+  assert (HnB : forall nB, aget (dir_cur s) tmpB = Some nB -> nB < next_ino s).
+  { intros nB E. destruct HBst; try congruence.
+    all: match goal with Hd : aget _ _ = Some ?n, Hl : ?n < _ |- _ => rewrite Hd in E; injection E as <-; exact Hl end. }
+  apply N.eqb_neq in Hfd, Htmp, HA, HB.
+  inversion H as [chunks Hc Habs|n acc rest Hfdn Hcur Hev Hdir Hlt Hc|n Hp Hcur Hev Hdir Hlt|n Hp Hcur Hev Hdir Hlt|]; try subst o; try subst rem; try subst remA.
+  - (* open *)
+    cbn [step]. rewrite Habs. cbn [fl_tmp o_creat o_wr o_app].
+    split.
+    + apply (st_frame _ _ _ s); [exact HBst| | | |cbn; lia].
+      * cbn [fds set_fd]. rewrite aget_aset, (N.eqb_sym fdB fdA), Hfd. reflexivity.
+      * cbn [dir_cur set_fd set_dir]. rewrite aget_aset, (N.eqb_sym tmpB tmpA), Htmp. reflexivity.
+      * intros nB E. split; [reflexivity|].
+        change (ever_at (set_dir s (aset (dir_cur s) tmpA (next_ino s))) dst nB = ever_at s dst nB).
+        rewrite ever_at_set_dir, aget_aset, (N.eqb_sym dst tmpA), HA. apply ever_at_cur_absorb.
+    + cbn [dir_cur set_fd set_dir]. intros nA nB. rewrite !aget_aset, N.eqb_refl, (N.eqb_sym tmpB tmpA), Htmp.
+      intros [= <-] E. specialize (HnB nB E). lia.
+  - match goal with Heq : _ ++ _ = _ :: _ |- _ =>
+      destruct rest as [|d rest]; cbn [map app] in Heq; injection Heq as <- <- end;
+      cbn [step]; rewrite Hfdn; cbn [fd_ino fd_wr fd_app fd_off].
+    + (* fsync *)
+      split; [|exact Hinj].
+      apply (st_frame _ _ _ s); [exact HBst|reflexivity|reflexivity| |cbn; lia].
+      intros nB E. split; [|reflexivity]. rewrite file_of_set_file.
+      destruct (N.eqb_spec nB n) as [->|]; [destruct (Hinj n n Hdir E eq_refl)|reflexivity].
+    + (* write *)
+      split; [|exact Hinj].
+      apply (st_frame _ _ _ s); [exact HBst| |reflexivity| |cbn; lia].
+      * cbn [fds set_fd]. rewrite aget_aset, (N.eqb_sym fdB fdA), Hfd. reflexivity.
+      * intros nB E. split; [|reflexivity].
+        change (file_of (set_fd ?a ?b ?c) nB) with (file_of a nB). rewrite file_of_add_pend.
+        destruct (N.eqb_spec nB n) as [->|]; [destruct (Hinj n n Hdir E eq_refl)|reflexivity].
+  - (* close *)
+    cbn [step]. split; [|exact Hinj].
+    apply (st_frame _ _ _ s); [exact HBst| |reflexivity| |cbn; lia].
+    + cbn [fds del_fd]. rewrite aget_adel, (N.eqb_sym fdB fdA), Hfd. reflexivity.
+    + intros nB E. split; reflexivity.
+  - (* rename *)
+    cbn [step]. rewrite Hdir. split.
+    + apply (st_frame _ _ _ s); [exact HBst|reflexivity| | |cbn; lia].
+      * cbn [dir_cur set_dir]. rewrite aget_aset, aget_adel, HB, (N.eqb_sym tmpB tmpA), Htmp. reflexivity.
+      * intros nB E. split; [reflexivity|].
+        rewrite ever_at_set_dir, aget_aset, N.eqb_refl.
+        destruct (N.eqb_spec n nB) as [->|]; [destruct (Hinj nB nB Hdir E eq_refl)|reflexivity].
+    + cbn [dir_cur set_dir]. intros nA nB. rewrite !aget_aset, !aget_adel, N.eqb_refl, HA. discriminate.
+Qed.
+
+Lemma merge_sym a b t : merge a b t -> merge b a t.
+Proof. induction 1; constructor; auto. Qed.
+
+Definition pend (rem : list op) : nat := match rem with [] => 0 | _ => 1 end.
+
+(** Every interleaving of the remainders of two saves is accepted and
+    publishes nothing but the complete contents, each exactly once. *)
+Lemma two_saves_merge fdA tmpA cA fdB tmpB cB remA remB t :
+  fdA <> fdB -> tmpA <> tmpB -> tmpA <> dst -> tmpB <> dst ->
+  merge remA remB t -> forall s,
+  unused_above s ->
+  (forall nA nB, aget (dir_cur s) tmpA = Some nA -> aget (dir_cur s) tmpB = Some nB -> nA <> nB) ->
+  st fdA tmpA cA s remA -> st fdB tmpB cB s remB ->
+  trace_safe dst s t = true /\
+  (forall v, In v (versions s t dst) -> v = Some cA \/ v = Some cB) /\
+  length (versions s t dst) = (pend remA + pend remB)%nat.
+Proof.
+  intros Hfd Htmp HA HB Hm. induction Hm as [|x a b t Hm IH|y a b t Hm IH]; intros s Hu Hinj HsA HsB.
+  - cbn. split; [reflexivity|]. split; [intros v []|reflexivity].
+  - destruct (st_step fdA tmpA cA s x a HA Hu HsA) as (Hok & HsA' & Hu' & Hpub).
+    destruct (st_other fdA tmpA cA fdB tmpB cB s x a b Hfd Htmp HA HB Hinj HsA HsB) as (HsB' & Hinj').
+    destruct (IH (step s x) Hu' Hinj' HsA' HsB') as (Hs & Hv & Hl).
+    cbn [trace_safe versions]. rewrite Hok, Hs. split; [reflexivity|]. split.
+    + intros v Hin. apply in_app_or in Hin. destruct Hin as [Hin|Hin]; [|apply Hv, Hin].
+      rewrite Hpub in Hin. destruct a; [|destruct Hin]. destruct Hin as [<-|[]]. left; reflexivity.
+    + rewrite app_length, Hl, Hpub. destruct a; reflexivity.
+  - destruct (st_step fdB tmpB cB s y b HB Hu HsB) as (Hok & HsB' & Hu' & Hpub).
+    assert (Hinj0 : forall nB nA, aget (dir_cur s) tmpB = Some nB -> aget (dir_cur s) tmpA = Some nA -> nB <> nA).
+    { intros nB nA E1 E2 E. exact (Hinj nA nB E2 E1 (eq_sym E)). }
+    destruct (st_other fdB tmpB cB fdA tmpA cA s y b a (not_eq_sym Hfd) (not_eq_sym Htmp) HB HA Hinj0 HsB HsA) as (HsA' & Hinj').
+    assert (Hinj1 : forall nA nB, aget (dir_cur (step s y)) tmpA = Some nA -> aget (dir_cur (step s y)) tmpB = Some nB -> nA <> nB).
+    { intros nA nB E1 E2 E. exact (Hinj' nB nA E2 E1 (eq_sym E)). }
+    destruct (IH (step s y) Hu' Hinj1 HsA' HsB') as (Hs & Hv & Hl).
+    cbn [trace_safe versions]. rewrite Hok, Hs. split; [reflexivity|]. split.
+    + intros v Hin. apply in_app_or in Hin. destruct Hin as [Hin|Hin]; [|apply Hv, Hin].
+      rewrite Hpub in Hin. destruct b; [|destruct Hin]. destruct Hin as [<-|[]]. right; reflexivity.
+    + rewrite app_length, Hl, Hpub. destruct b; cbn [pend length]; lia.
+Qed.
+
+End TwoSaves.
+
+(** Both saves from the beginning, stated on [interleavings] and on what is
+    visible. *)
+Theorem two_saves_safe s dst fdA tmpA chunksA fdB tmpB chunksB t :
+  quiescent s dst -> unused_above dst s ->
+  fdA <> fdB -> tmpA <> tmpB -> tmpA <> dst -> tmpB <> dst ->
+  aget (dir_cur s) tmpA = None -> aget (dir_cur s) tmpB = None ->
+  In t (interleavings (atomic_shape fdA tmpA dst chunksA) (atomic_shape fdB tmpB dst chunksB)) ->
+  trace_safe dst s t = true /\
+  length (versions s t dst) = 2%nat /\
+  forall v, In v (visible_states s t dst) ->
+            v = live_view s dst \/ v = Some (concat chunksA) \/ v = Some (concat chunksB).
+Proof.
+  intros Hq Hu Hfd Htmp HA HB HnA HnB Hin. apply interleavings_merge in Hin.
+  destruct (two_saves_merge dst fdA tmpA (concat chunksA) fdB tmpB (concat chunksB) _ _ t Hfd Htmp HA HB Hin s Hu)
+    as (Hs & Hv & Hl).
+  - intros nA nB E. congruence.
+  - apply st_pre; auto.
+  - apply st_pre; auto.
+  - split; [exact Hs|]. split; [exact Hl|].
+    intros v Hvis. apply (checker_sound dst s t Hq Hs) in Hvis. destruct Hvis as [<-|Hvis]; [left; reflexivity|].
+    right. apply Hv, Hvis.
+Qed.
+
+(** The boot states of the evaluator have no inode in use from [next_ino] on. *)
+Lemma boot_dir_range ents : forall k p j,
+  aget (boot_dir ents k) p = Some j -> k <= j < k + N.of_nat (length ents).
+Proof.
+  induction ents as [|[q c] r IH]; intros k p j; cbn [boot_dir]; [discriminate|].
+  rewrite aget_aset. cbn [length]. destruct (p =? q).
+  - intros [= <-]. lia.
+  - intros E. apply IH in E. lia.
+Qed.
+
+Lemma boot_files_range ents : forall k i f,
+  aget (boot_files ents k) i = Some f -> k <= i < k + N.of_nat (length ents).
+Proof.
+  induction ents as [|[q c] r IH]; intros k i f; cbn [boot_files]; [discriminate|].
+  rewrite aget_aset. cbn [length]. destruct (N.eqb_spec i k) as [->|].
+  - intros _. lia.
+  - intros E. apply IH in E. lia.
+Qed.
+
+Lemma boot_unused_above ents dst : unused_above dst (boot ents).
+Proof.
+  intros i Hi. cbn [next_ino boot] in Hi. unfold nlen in Hi. rewrite map_length in Hi. split.
+  - unfold ever_at, all_dirs. cbn [dir_cur dir_old boot existsb]. rewrite orb_false_r.
+    destruct (aget (boot_dir ents 1) dst) as [j|] eqn:E; [|reflexivity].
+    apply boot_dir_range in E. apply N.eqb_neq. lia.
+  - cbn [files boot]. destruct (aget (boot_files ents 1) i) as [f|] eqn:E; [|reflexivity].
+    apply boot_files_range in E. lia.
+Qed.
+
+Example two_saves_premises :
+  let s := boot [(1, [1; 2; 3])] in
+  quiescent s 1 /\ unused_above 1 s /\ aget (dir_cur s) 2 = None /\ aget (dir_cur s) 5 = None /\
+  In ([Open 3 2 fl_tmp; Open 4 5 fl_tmp; Write 4 [7]; Write 3 [4; 5]; Fsync 4; Fsync 3; Close 3; Rename 2 1; Close 4; Rename 5 1])
+     (interleavings (atomic_shape 3 2 1 [[4; 5]]) (atomic_shape 4 5 1 [[7]])).
+Proof.
+  cbn zeta. split; [apply boot_quiescent|]. split; [apply boot_unused_above|].
+  split; [reflexivity|]. split; [reflexivity|].
+  vm_compute. repeat (first [left; reflexivity | right]).
+Qed.
